@@ -6,6 +6,8 @@ import (
 	"time"
 
 	goat "github.com/avos-io/goat"
+	"github.com/avos-io/goat/gen/goatorepo"
+	"google.golang.org/protobuf/proto"
 )
 
 // c19ChanCancelledRead (scenario chan): an envelope written to the channel transport is read on the
@@ -164,5 +166,125 @@ func c19ChanObs(r *Run) {
 		r.Case("chanobs", in, fmt.Sprintf("accept:inflight=%d", inflight))
 		r.Count("chan.obs.sequences")
 		r.CountN("chan.obs.events", len(evs))
+	}
+}
+
+// c19ChanSecondWriter (scenario chan): two goroutines write to the same channel transport while the
+// peer is not reading. The first Write stays blocked on a context that lives on; the second Write
+// returns once ITS context is done — each blocked call answers to its own context. Then the peer
+// reads: the first envelope arrives, and a later Write works.
+func c19ChanSecondWriter(r *Run) {
+	r.Progress("chan.ctx.write.second", nil)
+	ab := make(chan *Rpc)
+	wr := goat.NewGoatOverChannel(make(chan *Rpc), ab)
+	rd := goat.NewGoatOverChannel(ab, make(chan *Rpc))
+	first := make(chan error, 1)
+	go func() { first <- wr.Write(context.Background(), &Rpc{Id: 1}) }()
+	time.Sleep(20 * time.Millisecond) // the first writer is in its Write
+	ctx2, cancel2 := context.WithCancel(context.Background())
+	second := make(chan error, 1)
+	go func() { second <- wr.Write(ctx2, &Rpc{Id: 2}) }()
+	time.Sleep(20 * time.Millisecond)
+	cancel2()
+	r.Eval("chan.ctx.write.second", true)
+	secondReturned := false
+	select {
+	case err := <-second:
+		secondReturned = true
+		if err == nil {
+			r.Violate("chan.ctx.write.second", "ops", "a Write reported success although nobody read the envelope", nil, "nil", "an error")
+		}
+	case <-time.After(hangTimeout):
+		r.Violate("chan.ctx.write.second", "ops", "a blocked Write did not return once its own context was done (another Write on the same transport, with a live context, was blocked as well)", nil, "still blocked after "+hangTimeout.String(), "returns with an error")
+	}
+	// the peer reads now
+	rctx, rcancel := context.WithTimeout(context.Background(), hangTimeout)
+	e, err := rd.Read(rctx)
+	rcancel()
+	if err != nil || (e.Id != 1 && secondReturned) {
+		r.Violate("chan.ctx.write.first", "ops", "the envelope of the Write that stayed blocked did not arrive once the peer read", nil, fmt.Sprint(e.GetId(), err), 1)
+	}
+	select {
+	case err := <-first:
+		if err != nil && e.GetId() == 1 {
+			r.Violate("chan.ctx.write.first", "ops", "the Write whose envelope was read reported an error", nil, err.Error(), "nil")
+		}
+	case <-time.After(hangTimeout):
+		r.Violate("chan.ctx.write.first", "ops", "the first Write did not return after the peer had read", nil, nil, nil)
+	}
+}
+
+// c19WsConcurrentWriters (scenario ws): several goroutines write to ONE websocket transport at the same
+// time (as the callers of concurrent unary RPCs do). Every envelope read on the other end equals one
+// that was written, each exactly once, and each writer's envelopes arrive in its own write order.
+func c19WsConcurrentWriters(r *Run) {
+	p, err := c19NewWsPair()
+	if err != nil {
+		r.Count("ws.concurrent.no_listener")
+		return
+	}
+	defer p.Close()
+	cw, sw := goat.NewGoatOverWebsocket(p.cli), goat.NewGoatOverWebsocket(p.srv)
+	writers, per := 8, r.Scale(30, 400)
+	r.Progress("ws.concurrent", map[string]any{"writers": writers, "envelopes_each": per})
+	rng := r.Rand("c19.ws.concurrent")
+	want := make([][]*Rpc, writers)
+	for w := range want {
+		for k := 0; k < per; k++ {
+			body := make([]byte, 600+rng.Intn(6000))
+			rng.Read(body)
+			want[w] = append(want[w], &Rpc{Id: uint64(w*100000 + k), Header: &goatorepo.RequestHeader{Source: fmt.Sprintf("w%d", w), Method: "/m"}, Body: &goatorepo.Body{Data: body}})
+		}
+	}
+	werr := make(chan error, writers)
+	for w := 0; w < writers; w++ {
+		go func(w int) {
+			for _, e := range want[w] {
+				ctx, cancel := context.WithTimeout(context.Background(), 2*hangTimeout)
+				err := cw.Write(ctx, e)
+				cancel()
+				if err != nil {
+					werr <- err
+					return
+				}
+			}
+			werr <- nil
+		}(w)
+	}
+	next := make([]int, writers)
+	bad := false
+	for i := 0; i < writers*per && !bad; i++ {
+		ctx, cancel := context.WithTimeout(context.Background(), 2*hangTimeout)
+		e, err := sw.Read(ctx)
+		cancel()
+		if err != nil {
+			r.Violate("ws.concurrent.read", "ops", "Read failed while concurrent writers were sending well-formed envelopes", map[string]any{"read_so_far": i}, err.Error(), nil)
+			bad = true
+			break
+		}
+		w := int(e.Id / 100000)
+		if w < 0 || w >= writers || next[w] >= per || !proto.Equal(e, want[w][next[w]]) {
+			exp := "nothing (unknown writer)"
+			if w >= 0 && w < writers && next[w] < per {
+				exp = c19Brief(want[w][next[w]])
+			}
+			r.Violate("ws.concurrent.equal", "ops", "an envelope read from the websocket is not the next envelope its writer wrote (several goroutines were writing to the transport at once)", map[string]any{"read_so_far": i}, c19Brief(e), exp)
+			bad = true
+			break
+		}
+		next[w]++
+	}
+	r.Eval("ws.concurrent", true)
+	r.CountN("ws.concurrent.envelopes", writers*per)
+	if !bad {
+		for w := 0; w < writers; w++ {
+			select {
+			case err := <-werr:
+				if err != nil {
+					r.Violate("ws.concurrent.write", "ops", "a Write failed on a healthy websocket", nil, err.Error(), nil)
+				}
+			case <-time.After(hangTimeout):
+			}
+		}
 	}
 }
